@@ -73,6 +73,8 @@ def mesh_hyps(w, groups, apps, out):
             hyp_all(groups, name, lambda v: v > 0, out)
         elif kind == 'nonneg':
             hyp_all(groups, name, lambda v: v >= 0, out)
+        elif kind == 'nonzero':
+            hyp_all(groups, name, lambda v: v != 0, out)
     for ap in apps:
         if ap.node[1] == 'sin' and w.grid == 'SphericalGrid3D':
             arg = ap.node[2]
